@@ -35,7 +35,8 @@ PropsOK ==
   /\ m.lost => m'.wire = m.wire
 
 Step(e) ==
-  CASE e.a = "Submit"     -> Submit(e.k) /\ (("ret" \in DOMAIN e) => e.ret \in CbReturns)
+  CASE e.a = "Submit" /\ e.k = "na" -> (IF e.acc THEN Submit("plain") ELSE SubmitRefused)   \* see ControlConn.tla, NonAscii
+    [] e.a = "Submit"     -> Submit(e.k) /\ (("ret" \in DOMAIN e) => e.ret \in CbReturns)
     [] e.a = "AddL"       -> AddL(e.l, e.n)
     [] e.a = "RemL"       -> RemL(e.l, e.n)
     [] e.a = "WhenDisc"   -> WhenDisc(e.k)
